@@ -703,6 +703,18 @@ class C14:
                    "pre": pre.get("ok"), "pre_end": pre_end.get("ok")}
             if "ok" in first:
                 out["again"] = guarded(lambda: one([0, 0, 0], True))
+
+            def default_map():
+                # the DEFAULT error model: a default-constructed Reck whose error model is modified in place and
+                # which is thrown away must not affect the next default-constructed Reck
+                from lightworks.interferometers.dists import Constant
+                d0 = Reck()
+                d0.error_model.loss = Constant(0.3)
+                d0.error_model.phase_offset = Constant(0.2)
+                m = Reck().map(circ)
+                uf = np.array(m.U_full)
+                return {"dim": int(uf.shape[0]), "dev": float(np.abs(np.array(m.U) - Uc).max()) if uf.shape[0] == Uc.shape[0] else None}
+            out["dflt"] = guarded(default_map)
             return out
         raise ValueError(k)
 
@@ -1006,6 +1018,13 @@ class C14:
         unitary = np.allclose(Uc.conj().T @ Uc, np.identity(n), rtol=0, atol=1e-10)
         if not unitary:
             return None if first.get("err") in ("ValueError", "TypeError") else f"lossy circuit not rejected: {_short(first)}"
+        dflt = obs.get("dflt")
+        if dflt is not None:
+            if "ok" not in dflt:
+                return f"Reck().map with the default error model raised on a lossless circuit: {_short(dflt)}"
+            if dflt["ok"]["dim"] != n or dflt["ok"]["dev"] is None or dflt["ok"]["dev"] > 1e-8:
+                return (f"a default-constructed Reck does not reproduce the unitary (dimension {dflt['ok']['dim']} vs {n}, "
+                        f"max deviation {dflt['ok']['dev']}): the default error model is not the trivial one")
         if badseed:
             return None if first.get("err") == "TypeError" else f"bad seed not rejected with TypeError: {_short(first)}"
         # a draw outside [0,1] is legitimately rejected; anything else must map
